@@ -381,12 +381,13 @@ func c01BigCase(t *rapid.T) {
 				return
 			}
 			body = body[len(bh.lenPrefix):]
-			if c.ExpireAt != want.ExpireAt {
-				violation(t, "C01", "chunked:expire", "first chunk expireat %d want %d", c.ExpireAt, want.ExpireAt)
-				return
-			}
 		} else if c.NeedReadLen != 0 {
 			violation(t, "C01", "chunked:continuation-flag", "chunk %d has NeedReadLen=%d", k, c.NeedReadLen)
+			return
+		}
+		// every record of the key carries the key's expiry (consumers such as decode mode print it per element)
+		if c.ExpireAt != want.ExpireAt {
+			violation(t, "C01", "chunked:expire", "chunk %d: expireat %d want %d", k, c.ExpireAt, want.ExpireAt)
 			return
 		}
 		cat = append(cat, body...)
